@@ -305,7 +305,14 @@ pub fn gen_dedication(ctx: &mut Ctx) -> Option<FCase> {
             return ctx.reject();
         }
         if uses_child && !type_attrs.iter().any(|a| a.name == "child_parents" && a.ded.is_none()) {
-            type_attrs.push(Instr::new("child_parents", None, "p: P, p.q: Q"));
+            // the nested structs are named for both counterparts, or for T alone (with a kind hint of its own): U then has
+            // no entry - legal for From / IntoExisting, and nothing of T's entry may reach U's impls (seeds C06-10, C06-11)
+            if ctx.flag() {
+                type_attrs.push(Instr::new("child_parents", Some("T"), "p: P as (), p.q: Q"));
+                tags.push("child_parents=T-only".into());
+            } else {
+                type_attrs.push(Instr::new("child_parents", None, "p: P, p.q: Q"));
+            }
         }
         let mut it = Item::new_struct("S", Shape::Named, vec![Field { attrs: m_attrs, name: Some("m".into()), ty: m_ty.into() }, Field::named("b", "i32")]);
         // T is either mapped both ways or only converted into (an untyped nested parent is legal for Into-only counterparts)
@@ -313,8 +320,13 @@ pub fn gen_dedication(ctx: &mut Ctx) -> Option<FCase> {
         if t_into_only {
             tags.push("T=into-only".into());
         }
+        // U is either mapped both ways or only From / IntoExisting (which need no #[child_parents])
+        let u_existing_only = ctx.flag();
+        if u_existing_only {
+            tags.push("U=from+existing-only".into());
+        }
         for cp in ["T", "U"] {
-            it.attrs.push(Instr::new(if cp == "T" && t_into_only { "into" } else { "map" }, None, cp));
+            it.attrs.push(Instr::new(if cp == "T" && t_into_only { "into" } else if cp == "U" && u_existing_only { "from" } else { "map" }, None, cp));
             it.attrs.push(Instr::new("into_existing", None, cp));
         }
         it.attrs.extend(type_attrs);
